@@ -203,6 +203,22 @@ Theorem C08_skipped_lossless : forall d t,
 Proof. exact skipped_lossless. Qed.
 Print Assumptions C08_skipped_lossless.
 
+(* which rank of a tensor is split: a rank id overrides the depth argument (Tensor.split*
+   docstrings), and the bookkeeping renames exactly that rank: id -> id.1, id.0 in place *)
+Theorem C08_rankid_overrides : forall r depth,
+  eff_depth (Some r) depth = r /\ eff_depth None depth = depth.
+Proof. exact rankid_overrides. Qed.
+Print Assumptions C08_rankid_overrides.
+
+Theorem C08_tensor_ids : forall k ids r,
+  nth_error ids k = Some r ->
+  split_ids k ids = firstn k ids ++ [r ++ [1]; r ++ [0]] ++ skipn (S k) ids /\
+  length (split_ids k ids) = S (length ids) /\
+  nth_error (split_ids k ids) k = Some (r ++ [1]) /\
+  nth_error (split_ids k ids) (S k) = Some (r ++ [0]).
+Proof. exact split_ids_spec. Qed.
+Print Assumptions C08_tensor_ids.
+
 (* the faithful model's observation meets the oracle for every well-formed case: every split
    kind (uniform, non-uniform, equal, unequal, "/" and "//"), every depth, fiber or tensor entry
    point, with or without a re-split of every partition *)
@@ -218,7 +234,7 @@ Print Assumptions C08_model_meets_spec.
 Example C08_nonvacuous :
   let c := {| k_sp := {| sp_kind := KNonUniform [2; 6]; sp_pre := 2; sp_post := 1; sp_rel := false |};
               k_tree := Node [(0, Leaf 2); (1, Leaf 0); (2, Leaf 2); (4, Leaf 1); (5, Leaf 7)];
-              k_d := 0; k_shapes := [Some 6]; k_active := None; k_depth := O; k_tensor := false;
+              k_d := 0; k_shapes := [Some 6]; k_active := None; k_depth := O; k_rankid := None; k_tensor := false;
               k_resplit := None |} in
   c08_wf c = true /\
   c08_model c = VL [VL [VZ 0; VZ 6]; VL [VZ 6];
